@@ -14,7 +14,7 @@
 From Coq Require Import List ZArith.
 Import ListNotations.
 From OV Require Import C01.Codec C01.CodecProofs C01.Builtins C01.VariantProofs C01.Types C01.TypesProofs
-  C01.Model C01.Proofs.
+  C01.Model C01.Proofs Gen.C01ServiceTypes.
 Open Scope Z_scope.
 
 (* every built-in type (k = encoding mask 1..22, 25), Variant and DataValue *)
@@ -28,6 +28,18 @@ Print Assumptions C01_builtins.
 Theorem C01_types : forall t, codec_ok (ty_codec t).
 Proof. exact ty_codec_ok. Qed.
 Print Assumptions C01_types.
+
+(* every generated structure and enumeration of service_types/ (field lists produced by
+   tools/translate/c01_service_types.py, which also checks that struct, byte_len, encode and decode
+   list the same fields in the same order), and the request / response headers *)
+Theorem C01_generated :
+  Forall (fun t => codec_ok (ty_codec t)) Gen.C01ServiceTypes.all_structs /\
+  Forall (fun t => codec_ok (ty_codec t)) Gen.C01ServiceTypes.all_enums /\
+  length Gen.C01ServiceTypes.all_structs = 283%nat.
+Proof.
+  split; [|split]; [apply Forall_forall; intros t _; apply ty_codec_ok ..|reflexivity].
+Qed.
+Print Assumptions C01_generated.
 
 (* the codec law is preserved by the generic combinators *)
 Theorem C01_combinators :
